@@ -329,6 +329,16 @@ def rule_kc_output(prog):
                                         "recognised" % (sorted(pushed), slot, len(looked)))
         return res
     out = next(iter(pushed))
+    # the repeat handler walks the list from the back: the key's own code is pushed after the outputs of its overrides
+    own_push = [bi for bi, t in f.calls() if (callee_name(t) or "").split("::")[-1] == "push" and len(t["args"]) > 1 and param_of(t["args"][1]) == out]
+    ok_last = bool(own_push) and all(any(f.dominates(lb, pb) for lb, _t, _p in looked) for pb in own_push)
+    res.inst("own-key-after-override-outputs", where=f.loc, ok=ok_last)
+    res.oblige(ok_last)
+    if not ok_last:
+        res.viol("own-key-after-override-outputs", f.loc,
+                 "add_kc_output pushes the key's own code before the outputs of its overrides. The repeat handler walks the list from the back "
+                 "and repeats the first key that is down: with (defoverrides (lsft a) (b)), a and b held and lsft up, the repeats of a go "
+                 "out as repeats of B")
     for bi, t, p in looked:
         ok = p == out
         res.inst("override-lookup-key", where="%s:%s" % (f.file, t.get("ln")), looked_up=f.local_name(p) if p else None,
